@@ -18,7 +18,7 @@ MEMCHR_REF = os.path.join(VERIF, "kani", "memchr-ref")
 def prepare(repo_root, tag):
     """Copy the working tree of the crate (src, Cargo.toml, Cargo.lock) into build/kani-work-<tag> and
     patch `memchr` to the reference crate (the real one reaches cpuid inline asm, which Kani rejects)."""
-    work = os.path.join(VERIF, "build", "kani-work-" + tag)
+    work = os.path.join(os.environ.get("VX_BUILD") or os.path.join(VERIF, "build"), "kani-work-" + tag)
     os.makedirs(work, exist_ok=True)
     for d in ("src",):
         dst = os.path.join(work, d)
